@@ -66,7 +66,7 @@ AUDIO_NAMES = ["song.ogg", "song.MP3", "a.wav", "b.oga", "e.OGG", "c.flac", "d.o
 OTHER_NAMES = ["notes.txt", "README", "song.lrc", "video.avi"]
 # hidden files: the whole name is the stem when the only dot is the leading one
 HIDDEN_NAMES = [".albumart", ".cdtitle", ".Song-BG", ".banner", ".bn", ".jk_x", ".x-cd", ".a title", ".hidden", ".Jacket.png", ".bg.JPG", "..bn"]
-SUBDIRS = ["sub", "Extras"]
+SUBDIRS = ["sub", "Extras", "extras"]  # two siblings that differ only in letter case (round 8: C20-r8-1, listing cache keyed on the lower-cased directory)
 KINDS = [
     ("BANNER", "banner"), ("BACKGROUND", "background"), ("CDTITLE", "cdtitle"), ("JACKET", "jacket"),
     ("CDIMAGE", "cdimage"), ("MUSIC", "music"), ("DISC", "disc"),
